@@ -79,7 +79,8 @@ class Prop(PropBase):
         pb, np = self.pb, self.np
         x, ax = self._input(case)
         try:
-            y = pb.utils.real_to_complex(x, axis=case["axis"])
+            # the default axis (0) by omission where it applies
+            y = pb.utils.real_to_complex(x) if case["axis"] == 0 and x.size % 2 == 0 else pb.utils.real_to_complex(x, axis=case["axis"])
         except Exception as e:
             return {"err": err_name(e)}
         N = case["N"]
